@@ -109,6 +109,11 @@ func libBuild(spec libSpec) (res libResult) {
 			if err != nil {
 				return err
 			}
+			if i == 0 {
+				if f, err := layerFile(l, "etc/apk/repositories"); err == nil {
+					add("etc/apk/repositories", f)
+				}
+			}
 			add(fmt.Sprintf("layer[%d]/blob-length", i), fmt.Sprint(len(b)))
 			add(fmt.Sprintf("layer[%d]/blob-sha256", i), "sha256:"+sha(b))
 		}
